@@ -547,7 +547,8 @@ def reject_case(ctx):
     nv = int(rng.integers(1, 5))
     f, _ = make_field(rng, mesh, nv)
     # a different mesh: shifted by a cell, other n, or other cell size
-    how = gen.pick(rng, ["shifted", "other_n", "other_cell", "coarser_same_region", "other_dims"])
+    how = gen.pick(rng, ["shifted", "other_n", "other_cell", "coarser_same_region", "other_dims",
+                         "became_different"])
     ax = int(rng.integers(0, spec.nd))
     pmin, cell, n = spec.pmin.copy(), spec.cell.copy(), spec.n.copy()
     dims2 = spec.dims
@@ -585,7 +586,27 @@ def reject_case(ctx):
         calls["cross"] = lambda a, b: a.cross(b)
     for name, uf in UFUNC2.items():
         calls[name] = uf
-    same_shape = how in ("shifted", "other_dims")  # numpy alone cannot notice these
+    if how == "became_different":
+        # history: g lives on an equal but separate mesh object; every combination is
+        # carried out once (legitimately), then g's mesh is moved / rescaled in place - from
+        # then on the two fields live on different meshes
+        for name, fn in calls.items():
+            for x, y in ((f, g), (g, f), (f, s2)):
+                try:
+                    with np.errstate(all="ignore"):
+                        fn(x, y)
+                except Exception:  # noqa: BLE001 - not this monitor's subject
+                    pass
+        step = gen.pick(rng, ["translate", "scale"])
+        for m2 in {id(g.mesh): g.mesh, id(s2.mesh): s2.mesh}.values():
+            if step == "translate":
+                v = np.zeros(spec.nd)
+                v[ax] = spec.cell[ax] * float(rng.choice([1, -1, 0.5, 3]))
+                m2.translate(v.tolist(), inplace=True)
+            else:
+                m2.scale(float(rng.choice([2, 0.5, 1.25])), inplace=True)
+        ctx.event("reject.became_different." + step)
+    same_shape = how in ("shifted", "other_dims", "became_different")  # numpy alone cannot notice
     for name, fn in calls.items():
         for tag, x, y in (("fg", f, g), ("gf", g, f), ("f,scalar_on_other_mesh", f, s2)):
             if tag.startswith("f,scalar") and name in ("dot", "angle", "cross"):
@@ -617,7 +638,68 @@ def reject_case(ctx):
     ctx.sig(("reject", spec.nd, nv, how), True)
 
 
+def large_case(ctx):
+    """The same cell-by-cell claim on a mesh of 0.9e5 - 1.7e5 cells (odd cell counts): sizes at
+    which a blocked or chunked implementation has several blocks and a partial last one."""
+    rng = ctx.rng
+    n = [int(rng.integers(90, 112)) | 1, int(rng.integers(36, 46)) | 1, int(rng.integers(28, 34)) | 1]
+    n = [n[int(j)] for j in rng.permutation(3)]
+    cell = 10.0 ** rng.uniform(-9, 0) * rng.uniform(0.5, 2, 3)
+    pmin = rng.uniform(-1, 1, 3) * cell * n
+    mesh = df.Mesh(p1=pmin.tolist(), p2=(pmin + cell * n).tolist(), n=n)
+    mag = 10.0 ** rng.uniform(-2, 2)
+    fa = rng.normal(size=(*n, 3)) * mag
+    ga = rng.normal(size=(*n, 3)) / mag
+    sa = rng.uniform(0.5, 2, size=(*n, 1)) * rng.choice([-1, 1], size=(*n, 1))
+    vf = rng.random(tuple(n)) < 0.9
+    vg = rng.random(tuple(n)) < 0.9
+    f = df.Field(mesh, nvdim=3, value=fa, valid=vf)
+    g = df.Field(mesh, nvdim=3, value=ga, valid=vg)
+    sc = df.Field(mesh, nvdim=1, value=sa)
+    c = rng.normal(size=3)
+    info = {"part": "large", "n": n, "cells": int(np.prod(n))}
+    ctx.sig(("large", tuple(k // 50 for k in n)), nontrivial=True)
+    ctx.event("large_meshes")
+    ab = np.abs(fa) * np.abs(ga)
+    norm2 = np.linalg.norm(fa, axis=-1, keepdims=True) * np.linalg.norm(ga, axis=-1, keepdims=True)
+    cases = [
+        ("f + g", lambda: f + g, fa + ga, 0 * ab),
+        ("f - g", lambda: f - g, fa - ga, 0 * ab),
+        ("f * g", lambda: f * g, fa * ga, 2 * EPS * ab),
+        ("f / s", lambda: f / sc, fa / sa, 2 * EPS * np.abs(fa / sa)),
+        ("s * g", lambda: sc * g, sa * ga, 2 * EPS * np.abs(sa * ga)),
+        ("np.multiply(f, g)", lambda: np.multiply(f, g), fa * ga, 2 * EPS * ab),
+        ("f.dot(g)", lambda: f.dot(g), np.sum(fa * ga, axis=-1, keepdims=True), 8 * EPS * norm2),
+        ("f @ g", lambda: f @ g, np.sum(fa * ga, axis=-1, keepdims=True), 8 * EPS * norm2),
+        ("f.cross(g)", lambda: f.cross(g), np.cross(fa, ga), 8 * EPS * norm2),
+        ("f & g", lambda: f & g, np.cross(fa, ga), 8 * EPS * norm2),
+        ("f.cross(c)", lambda: f.cross(tuple(c.tolist())), np.cross(fa, c),
+         8 * EPS * np.linalg.norm(fa, axis=-1, keepdims=True) * np.linalg.norm(c)),
+        ("c & f", lambda: tuple(c.tolist()) & f, np.cross(c, fa),
+         8 * EPS * np.linalg.norm(fa, axis=-1, keepdims=True) * np.linalg.norm(c)),
+        ("f << s", lambda: f << sc, np.concatenate([fa, sa], axis=-1), 0.0),
+        ("-f", lambda: -f, -fa, 0 * fa),
+        ("abs(f)", lambda: abs(f), np.abs(fa), 0 * fa),
+    ]
+    for name, call, exp, tol in cases:
+        okc, r = ctx.expect_ok("C03.raise_parity", call, what=dict(info, expr=name))
+        if not okc:
+            continue
+        good = r.array.shape == exp.shape and bool(np.all(np.abs(r.array - exp) <= tol))
+        w = {}
+        if not good and r.array.shape == exp.shape:
+            bad = np.argwhere(~(np.abs(r.array - exp) <= tol))
+            w = {"wrong_cells": int(len(bad)), "first": bad[0], "last": bad[-1],
+                 "got": r.array[tuple(bad[0])], "expected": exp[tuple(bad[0])]}
+        ctx.check("C03.node.values", good, expr=name, got_shape=r.array.shape, **w, **info)
+    ctx.check("C03.operands_untouched",
+              np.array_equal(f.array, fa) and np.array_equal(g.array, ga)
+              and np.array_equal(f.valid, vf) and np.array_equal(g.valid, vg), **info)
+
+
 def run_case(ctx, i):
+    if i % 1600 == 801:
+        return large_case(ctx)
     kind = i % 4
     if kind in (0, 1):
         tree_case(ctx)
